@@ -137,6 +137,10 @@ pub fn worker(prop: &str, seed: u64, tier: &str, from: u64, to: u64, stride: u64
     if mem_cap > 0 {
         set_mem_cap(mem_cap);
     }
+    // sampling rate of the Python decoder (C09): every 40th image in quick, every 8th in thorough
+    if std::env::var("VERIF_PY_RATE").is_err() {
+        std::env::set_var("VERIF_PY_RATE", if tier == "thorough" { "8" } else { "40" });
+    }
     let known = load_known();
     let stdout = std::io::stdout();
     let mut agg = Aggregate::default();
